@@ -159,11 +159,16 @@ def gen_bbox(rng, grid):
     return None
 
 
-def gen_create(rng, grids):
+def gen_create(rng, grids, empty_ok=False):
     gi = rng.randrange(len(grids))
     bbox = gen_bbox(rng, grids[gi])
     if bbox is None:
         return None
+    if empty_ok and rng.chance(0.5):
+        # a box with no grid cell in it at all: create_config widens it until it finds data. Whatever it
+        # returns is not judged (outside the property); what the call leaves behind is part of the history
+        g = grids[gi]
+        bbox = [g["lon"][0] - 3.25, g["lat"][0] - 3.25, g["lon"][0] - 2.75, g["lat"][0] - 2.75]
     start_m, start_d = rng.randint(1, 12), rng.randint(1, 28)
     year = rng.pick((2019, 2020, 2021))
     length = rng.randint(2, 300)
@@ -181,7 +186,10 @@ def gen_create(rng, grids):
             tests[name] = {"threshold": ex()}
         else:
             tests[name] = {k: ex() for k in ("suspect_threshold", "fail_threshold", "tolerance")}
-    return {"op": "create", "grid": gi, "bbox": bbox, "start": [year, start_m, start_d], "days": length, "tests": tests}
+    op = {"op": "create", "grid": gi, "bbox": bbox, "start": [year, start_m, start_d], "days": length, "tests": tests}
+    if empty_ok and bbox[2] < grids[gi]["lon"][0]:
+        op["unchecked"] = True
+    return op
 
 
 def generate(rng, tier="quick"):
@@ -211,9 +219,22 @@ def generate(rng, tier="quick"):
                 valid = False
             ops.append({"op": "validate", "tokens": toks, "valid": valid})
         elif kind == "create":
-            c = gen_create(rng, grids)
-            if c:
+            creates = [o for o in ops if o["op"] == "create" and "vc_from" not in o]
+            if creates and rng.chance(0.4):
+                # the same QcVariableConfig object (same bbox list, same test specs) handed to a creator again,
+                # possibly the creator of another climatology
+                j = rng.pick([i for i, o in enumerate(ops) if o["op"] == "create" and "vc_from" not in o])
+                c = copy.deepcopy(ops[j])
+                c["vc_from"] = ops[j]["uid"]
+                c["uid"] = len(ops)
+                c["grid"] = rng.randrange(len(grids))
+                c.pop("unchecked", None)
                 ops.append(c)
+            else:
+                c = gen_create(rng, grids, empty_ok=rng.chance(0.3))
+                if c:
+                    c["uid"] = len(ops)
+                    ops.append(c)
     return {"format": 1, "property": PROP, "env": wl.gen_env(rng), "grids": grids, "ops": ops}
 
 
@@ -259,6 +280,14 @@ def model_stats(grid, bbox):
     return {"min": float(arr.min()), "max": float(arr.max()), "mean": float(arr.mean()), "std": float(arr.std())}
 
 
+def has_valid_cell(grid, bbox):
+    return any(
+        bbox[1] <= la <= bbox[3] and bbox[0] <= lo <= bbox[2] and grid["field"][i][j] is not None
+        for i, la in enumerate(grid["lat"])
+        for j, lo in enumerate(grid["lon"])
+    )
+
+
 def same_float(a, b):
     if isinstance(a, float) and isinstance(b, float):
         return a == b or (a != a and b != b)
@@ -281,6 +310,7 @@ def execute(scn):
     events, results = [], []
     seen = {}
     creators = {}
+    vcs = {}
     rejected_before = False
     for i, op in enumerate(scn["ops"]):
         stats["ops"] += 1
@@ -363,7 +393,12 @@ def execute(scn):
                 start = datetime.date(y, m, d)
                 end = start + datetime.timedelta(days=op["days"])
                 tests = {name: {k: v["text"] for k, v in fields.items()} for name, fields in op["tests"].items()}
-                vc = QcVariableConfig({"variable": "temperature", "bbox": op["bbox"], "start_time": start.isoformat(), "end_time": end.isoformat(), "tests": tests})
+                if "vc_from" in op and op["vc_from"] in vcs:
+                    vc = vcs[op["vc_from"]]
+                    bump("variable_config_reused")
+                else:
+                    vc = QcVariableConfig({"variable": "temperature", "bbox": list(op["bbox"]), "start_time": start.isoformat(), "end_time": end.isoformat(), "tests": tests})
+                vcs[op.get("uid", i)] = vc
                 out = qc.create_config(vc)["temperature"]["qartod"]
             except ZeroDivisionError:
                 results.append("zero-division")
@@ -375,6 +410,11 @@ def execute(scn):
                 results.append("raised")
                 continue
             bump("create_config")
+            if op.get("unchecked") or not has_valid_cell(grid, op["bbox"]):
+                bump("create_on_empty_box_unjudged")
+                results.append("unjudged")
+                events.append(("OP", kind, len(fx_parser.exprStack)))
+                continue
             ms = model_stats(grid, op["bbox"])
             flat = {}
             for name, fields in op["tests"].items():
